@@ -48,4 +48,4 @@ EXPLORE = {'sim': (sim_cases(), execute_sim), 'real': (rp.c04_cases(), rp.execut
 def run(ctx):
     ctx.explore('sim', sim_cases(), execute_sim, n=ctx.pick(250, 25000))
     ctx.explore('real', rp.c04_cases(), rp.execute_c04, n=ctx.pick(3, 40),
-                shrink_budget=6)
+                shrink_budget=6, reexecute_confirm=2)
